@@ -3,6 +3,7 @@ package rules
 import (
 	"fmt"
 	"go/constant"
+	"go/token"
 	"go/types"
 	"strings"
 
@@ -55,7 +56,48 @@ func c14(c *Ctx) {
 			// disjunct to pair the retry counter test with the matching ourMsg fact
 			var descr []string
 			okAll, found := true, false
-			classify := func(conj []facts.Fact) {
+			var classify func(conj []facts.Fact)
+			classify = func(conj []facts.Fact) {
+				// a limit chosen per entry (`limit := 10; if s.ourMsg != nil { limit = 14400 }`):
+				// one disjunct per way the limit gets its value, with the facts of that way
+				for _, f := range conj {
+					x, op, y, ok := cmpOf(f)
+					if !ok || op != token.LEQ || !strings.HasSuffix(facts.Term(y), ".retryCount") {
+						continue
+					}
+					ph, isPhi := x.(*ssa.Phi)
+					if !isPhi {
+						continue
+					}
+					allConst := true
+					for _, e := range ph.Edges {
+						if _, isK := constInt(e); !isK {
+							allConst = false
+						}
+					}
+					if !allConst {
+						continue
+					}
+					for k, e := range ph.Edges {
+						kv, _ := constInt(e)
+						pred := ph.Block().Preds[k]
+						ei := 0
+						for q, sc := range pred.Succs {
+							if sc == ph.Block() {
+								ei = q
+							}
+						}
+						sub := []facts.Fact{{Atom: fmt.Sprintf("%d <= %s", kv, facts.Term(y))}}
+						for _, g := range conj {
+							if g.Cond != f.Cond {
+								sub = append(sub, g)
+							}
+						}
+						sub = append(sub, facts.AtEdge(pred, ei, nil)...)
+						classify(sub)
+					}
+					return
+				}
 				signed, unsigned := false, false
 				var K int64 = -1
 				for _, x := range conj {
